@@ -10,6 +10,7 @@ import (
 	"github.com/internetarchive/Zeno/internal/pkg/config"
 	"github.com/internetarchive/Zeno/internal/pkg/controler/pause"
 	"github.com/internetarchive/Zeno/internal/pkg/log"
+	"github.com/internetarchive/Zeno/internal/pkg/verifhook"
 )
 
 var (
@@ -92,6 +93,7 @@ func WatchDiskSpace(path string, interval time.Duration) {
 					return
 				}
 			}
+			verifhook.At("watch.disk.tick", err != nil, paused)
 		}
 	}
 }
